@@ -30,10 +30,48 @@ def plant(rng, xs):
     return xs[:k] + [v] + xs[k:]
 
 
+TYPED_ELEMS = ["jnum", "jnum", "float64", "int", "int64", "uint64", "float32", "string", "mystring", "bool", "myint", "*int", "[]jnum", "[1]jnum"]
+
+
+def typed_case(rng):
+    """uniqueItems on a TYPED slice / array (one static element type, e.g. []json.Number, [4]uint64, []mystring): elements that
+    are Equal need not be identical Go values (json.Number spellings, -0.0)."""
+    et = rng.choice(TYPED_ELEMS)
+    base = et.lstrip("*[]1")
+    if base in ("string", "mystring"):
+        pool = list(gv.STRINGS)
+    elif base == "bool":
+        pool = [True, False]
+    else:
+        pool = [Num(x) for x in gv.SPECIAL_NUMS] + [Num(str(k)) for k in range(-3, 4)]
+    ys, seen = [], set()
+    for _ in range(rng.randint(1, 6)):
+        v = rng.choice(pool)
+        if et.startswith("["):
+            v = [v]
+        if canon(v) not in seen:
+            seen.add(canon(v))
+            ys.append(v)
+    dup = rng.random() < 0.5
+    if dup:
+        ys = plant(rng, ys)
+    T = ("[%d]" % len(ys) if rng.random() < 0.3 else "[]") + et
+    g = gv.represent_as(rng, ys, T)
+    if g is None:
+        return None
+    return {"op": "validate", "args": {"schema": Obj([("uniqueItems", True)]), "ginsts": [g]},
+            "meta": {"expect": [not dup], "len": len(ys), "typed": et}}
+
+
 def gen(rng, tier, n):
     ops = []
     while len(ops) < n:
         r = rng.random()
+        if r < 0.12:
+            o = typed_case(rng)
+            if o is not None:
+                ops.append(o)
+            continue
         if r < 0.45:
             xs = [gv.gen_json(rng, 2) for _ in range(rng.randint(0, 12 if rng.random() < 0.3 else 5))]
             # make elements distinct first, then plant duplicates with probability 1/2
